@@ -27,7 +27,7 @@ def generate(ctx):
     th = ctx.tier == "thorough"
     for i in range(5000 if th else 130):
         kind = KINDS[i % len(KINDS)] if i < 3 * len(KINDS) else rng.choice(KINDS)
-        dt = rng.choice([1.0, 0.5, 1.3])
+        dt = rng.choice([1.0, 0.5, 1.3, round(rng.uniform(0.1, 2.5), 3)])
         durk = rng.choice([0.0, 3.0, 2.5, 1.0, 6.0])
         T = rng.randint(12, 40)
         ops = []
@@ -42,11 +42,14 @@ def generate(ctx):
                 ops.append({"op": "view", "n": rng.randint(1, 3), "mode": rng.choice(["scalar", "tensor"])})
             if rng.random() < 0.2:
                 ops.append({"op": "dump"})
+        cont = rng.random() < 0.35      # off the menu: continuous draws of the real-valued hyper-parameters
+        u = rng.uniform
         yield {"part": "reducer", "kind": kind, "dt": dt, "duration": durk * dt, "inclusive": rng.random() < 0.5,
-               "inplace": rng.random() < 0.5, "tc": rng.choice([2.0, 5.0, 20.0, 0.7]),
-               "amp": rng.choice([1.0, 0.5, -1.0, 2.5, -0.25]), "scale": rng.choice([1.0, -0.5, 0.0, 2.0]),
+               "inplace": rng.random() < 0.5, "tc": round(u(0.4, 50.0), 3) if cont else rng.choice([2.0, 5.0, 20.0, 0.7]),
+               "amp": round(u(-3.0, 3.0), 3) if cont else rng.choice([1.0, 0.5, -1.0, 2.5, -0.25]),
+               "scale": round(u(-2.0, 2.5), 3) if cont else rng.choice([1.0, -0.5, 0.0, 2.0]),
                "obs": rng.choice(["bool", "real"]), "tolerance": rng.choice([None, 0.1, 0.5, 0.25]), "target": rng.choice([1.0, 0.0, 2.5]),
-               "initial": rng.choice(["inf", "zero", "nan"]), "alpha": rng.choice([0.0, 0.1, 0.5, 0.9, 1.0]),
+               "initial": rng.choice(["inf", "zero", "nan"]), "alpha": round(u(0.0, 1.0), 4) if cont else rng.choice([0.0, 0.1, 0.5, 0.9, 1.0]),
                "p": rng.choice([0.1, 0.3, 0.6, 1.0, 0.0]), "shape": list(rng.choice([(3,), (2, 2), (1,), (2, 1, 2)])),
                "seed": rng.randrange(1 << 30), "ops": ops}
     for _ in range(1500 if th else 40):
